@@ -1,4 +1,5 @@
 import NeumannModel.Codec.SparseLemmas2
+import NeumannModel.Codec.SparseSet
 /-
   C20 — property theorems for the sparse-vector encoding (`SparseVector`) and the network-side
   validator of decoded vectors.  An f32 is its bit pattern; only data movement and comparisons
@@ -171,6 +172,32 @@ theorem get_eq_dense (s : SV) (hwf : s.wf = true) (i : Nat) (hi : i < s.dim) :
     cases lookupW (s.pos.zip s.vals) i with
     | some v => rfl
     | none => rw [List.getElem?_replicate, if_pos hi]; rfl
+
+/-- **`try_set` changes exactly one dense component and keeps the struct invariant**: on every
+    valid vector and every in-range index, setting bit pattern `v` succeeds, the result is valid
+    (positions still strictly sorted, no stored zero — a zero REMOVES the entry) and its dense
+    image is the old one with component `i` replaced by `v` (zeros normalised to +0.0) -/
+theorem set_image (s : SV) (hv : s.valid = true) (i v : Nat) (hi : i < s.dim) :
+    ∃ s', trySet s i v = .ok s' ∧ s'.valid = true ∧ s'.dim = s.dim ∧
+      ∃ l l', toDense s = some l ∧ toDense s' = some l' ∧ l' = l.set i (normZero v) := by
+  obtain ⟨hs, hok, hmax⟩ := valid_as_pairs s hv
+  obtain ⟨ws', hset, hok', hl⟩ := set_pairs s.dim (s.pos.zip s.vals) hok i v hi
+  refine ⟨ofPairs s.dim ws', by rw [hs]; exact hset, ofPairs_valid s.dim ws' hok' hmax, rfl, ?_⟩
+  obtain ⟨l, l', h1, h2, h3⟩ := dense_set_of_lookup s.dim (s.pos.zip s.vals) ws' hok hok' i v hl
+  exact ⟨l, l', by rw [hs]; exact h1, h2, h3⟩
+
+/-- `try_set` refuses exactly an index outside the dimension -/
+theorem set_rejects_iff (s : SV) (i v : Nat) : trySet s i v = .error .oob ↔ s.dim ≤ i := by
+  unfold trySet
+  by_cases h : i ≥ s.dim
+  · rw [if_pos h]; exact ⟨fun _ => h, fun _ => rfl⟩
+  · rw [if_neg h]
+    constructor
+    · intro e
+      cases hf : findPos s.pos i with
+      | some k => rw [hf] at e; dsimp only at e; split at e <;> cases e
+      | none => rw [hf] at e; dsimp only at e; split at e <;> cases e
+    · intro e; omega
 
 /-- **`SparseVectorBuilder::build`**: positions strictly increasing, arrays equally long, and —
     when every pushed position is inside the dimension — the dense image is the pushed non-zero
